@@ -1,5 +1,5 @@
 From Coq Require Import ZArith List String Bool.
-From FV Require Import Base.Ser Base.Res C16.Model.
+From FV Require Import Base.Ser Base.Res C16.Model C16.ModelOrder.
 Import ListNotations.
 Open Scope string_scope.
 (* a data-driven instance of the save machine: content = bytes the table recompiles to *)
@@ -20,6 +20,7 @@ Definition run5 {A B C D E F} `{De A} `{De B} `{De C} `{De D} `{De E} `{Ser F}
   run1 (fun p : A * B * C * D * E => f (fst (fst (fst (fst p)))) (snd (fst (fst (fst p)))) (snd (fst (fst p))) (snd (fst p)) (snd p)) inp.
 Definition reg : registry := [
   ("uniq_sort", run1 uniq_sort);
-  ("sim_save", run5 sim_save)
+  ("sim_save", run5 sim_save);
+  ("sortedTagList", run2 sortedTagList_with)
 ].
 Definition fv_entry := dispatch reg.
